@@ -27,7 +27,7 @@ FAMILY = "nsfix"
 XSL = "http://www.w3.org/1999/XSL/Transform"
 XMLNS = "http://www.w3.org/XML/1998/namespace"
 URI_FIXED = {0: "", 1: XMLNS, 2: "http://www.w3.org/2000/xmlns/", 3: XSL}
-HAZARD_KEY = {"K17": "K17", "ElemEmptyNs": "KN6"}
+HAZARD_KEY = {"K17": "K17", "ElemEmptyNs": "KN6", "LateLiteral": "KN10"}
 # hazards that mark an erroneous / unmodelled stylesheet rather than a defect: never generated in oracle streams
 HAZARD_SKIP = {"DeclAttr", "Unsupported"}
 
@@ -117,8 +117,10 @@ def uri_text(n):
 #   elem: {"k":"elem","name":..,"nsattr":None|uri,"ns":[..],"avt":bool,"kids":[..]}
 #   attr: {"k":"attr","name":..,"nsattr":None|uri,"ns":[..],"avt":bool,"val":int}
 #   text: {"k":"text"}
-#   (oracle-only) copy / copyof / lre with "uas"
-# sheet: {"ns":[(pfx,uri)], "excl":[..], "alias":[(sp,rp)], "body":[..], "asets":{name:[attr..]}, "source": str}
+#   lre / elem may carry "uas": [set names] (modelled: sets run after the declarations, before the literal attributes)
+#   (oracle-only) copy / copyof
+# sheet: {"ns":[(pfx,uri)], "excl":[..], "alias":[(sp,rp)], "body":[..],
+#         "asets":{name: [attr..] | {"uas":[names], "attrs":[attr..]}}, "source": str}
 
 def lookup(scope, p):
     """scope: list of (pfx, uri), innermost first"""
@@ -196,14 +198,35 @@ class Sheet:
 
     def text(self):
         body = "".join(self.node_text(n) for n in self.sh["body"])
+        sets = ""
+        for name in self.sh.get("asets", {}):
+            st = self.aset(name)
+            sets += '<xsl:attribute-set name="%s"%s>%s</xsl:attribute-set>' % (
+                name, (' use-attribute-sets="%s"' % " ".join(st["uas"])) if st["uas"] else "",
+                "".join(self.node_text(a) for a in st["attrs"]))
         top = "".join('<xsl:param name="P%d" select="\'%s\'"/>' % (i, p) for i, p in enumerate(self.params))
         for sp, rp in self.sh.get("alias", []):
             top += '<xsl:namespace-alias stylesheet-prefix="%s" result-prefix="%s"/>' % (sp, rp)
-        for name, attrs in self.sh.get("asets", {}).items():
-            top += '<xsl:attribute-set name="%s">%s</xsl:attribute-set>' % (name, "".join(self.node_text(a) for a in attrs))
+        top += sets
         ex = (' exclude-result-prefixes="%s"' % " ".join(self.sh["excl"])) if self.sh.get("excl") else ""
         return '<xsl:stylesheet version="1.0" xmlns:xsl="%s"%s%s>%s<xsl:template match="/">%s</xsl:template></xsl:stylesheet>' % (
             XSL, nsattrs(self.sh["ns"]), ex, top, body)
+
+    # --- attribute sets: {"uas": [names], "attrs": [attr nodes]} (a bare list = no nested sets) ---
+    def aset(self, name):
+        st = self.sh["asets"][name]
+        return {"uas": [], "attrs": st} if isinstance(st, list) else st
+
+    def set_attrs(self, names, depth=0):
+        """the xsl:attribute instructions in the order they are instantiated: for each named set first the
+        sets it uses itself, then its own attributes"""
+        out = []
+        for name in names:
+            st = self.aset(name)
+            if depth < 4:
+                out += self.set_attrs(st["uas"], depth + 1)
+            out += st["attrs"]
+        return out
 
     # --- model program ---
     def ouri(self, u):
@@ -227,13 +250,22 @@ class Sheet:
                                                   self.ouri(lookup(sc, p) if p and p != "xml" else None),
                                                   self.ouri(lookup(sc, "")), uri_num(lookup(scope, "") or "")))
             ex2 = excl
+            # use-attribute-sets: the sets' xsl:attribute instructions run before the children
+            for a in self.set_attrs(n.get("uas", [])):
+                self.emit_ops(a, self.top_scope, [])
         else:
             ex2 = excl + [lookup(sc, "" if p == "#default" else p) for p in n.get("excl", [])]
-            self.ops.append("L|%s|%s|%s|%s" % (
-                N.qname(n["name"]),
-                "+".join("%s=%d" % (N.pfx(p), uri_num(u)) for p, u in sc) or "_",
-                "+".join(str(uri_num(u)) for u in ex2 if u is not None) or "_",
-                "+".join("%s=%d" % (N.qname(q), v) for q, v in n["attrs"]) or "_"))
+            ins = "+".join("%s=%d" % (N.pfx(p), uri_num(u)) for p, u in sc) or "_"
+            ats = "+".join("%s=%d" % (N.qname(q), v) for q, v in n["attrs"]) or "_"
+            head = "%s|%s|%s|%s" % (N.qname(n["name"]), ins, "+".join(str(uri_num(u)) for u in ex2 if u is not None) or "_", ats)
+            if n.get("uas"):
+                # declarations, then the attribute sets, then the literal attributes
+                self.ops.append("LO|" + head)
+                for a in self.set_attrs(n["uas"]):
+                    self.emit_ops(a, self.top_scope, [])
+                self.ops.append("LA|%s|%s" % (ins, ats))
+            else:
+                self.ops.append("L|" + head)
         for c in n["kids"]:
             self.emit_ops(c, sc, ex2)
         self.ops.append("E")
@@ -277,6 +309,8 @@ class Sheet:
                 u = lookup(sc, p) or ""
             e = {"name": (u, l), "attrs": {}, "kids": [], "excl": set(), "lre": False, "open": True}
             ex2 = excl
+            for a in self.set_attrs(n.get("uas", [])):
+                self.intended(a, self.top_scope, [], None, e)
         else:
             p, l = split(n["name"])
             u = lookup(sc, p) or ""
@@ -289,8 +323,8 @@ class Sheet:
                 if ap:
                     au = self.alias.get(au, au)
                 e["attrs"][(au, al)] = "u%d" % v
-            for name in n.get("uas", []):
-                for a in self.sh["asets"][name]:
+            if n.get("uas"):
+                for a in self.set_attrs(n["uas"]):
                     self.intended(a, self.top_scope, [], None, e)
                 # literal attributes win over attribute sets
                 for q, v in n["attrs"]:
@@ -462,6 +496,7 @@ class TreeGen:
         self.budget = r.choice([3, 5, 8, 12])
         # "xml" and "xmlq" never in one sheet: ElemAttribute compares only the first n characters of the found prefix
         self.weird_pool = r.choice([["xml", "xmlns"], ["xmlns", "xmlq"]])
+        self.setnames = []            # names of the attribute sets of this sheet
 
     def pfx(self):
         r = self.r
@@ -562,6 +597,8 @@ class TreeGen:
                 name, nsattr = self.pfx() + ":" + l, (self.uri() if r.random() < 0.93 or self.style != "weird" else "")
             n = {"k": "elem", "name": name, "nsattr": nsattr, "ns": ns, "avt": r.random() < 0.3, "kids": []}
         frozen = frozenset(frozen) | set(p for p, u in sc if u in exuris)
+        if self.setnames and r.random() < 0.35:
+            n["uas"] = r.sample(self.setnames, r.choice([1, 1, min(2, len(self.setnames))]))
         # children: attributes first, then content
         for _ in range(r.choice([0, 1, 1, 2, 3, 4])):
             n["kids"].append(self.attr(sc, frozen))
@@ -589,11 +626,58 @@ class TreeGen:
         top = ns + [("xsl", XSL)]
         exuris = frozenset(lookup(top, "" if x == "#default" else x) for x in excl)
         frozen = frozenset(p for p, u in top if u in exuris)
+        asets = {}
+        if self.style != "late" and r.random() < 0.4:
+            for i in range(r.choice([1, 2, 3])):
+                name = "s%d" % i
+                asets[name] = {"uas": ([r.choice(list(asets))] if asets and r.random() < 0.4 else []),
+                               "attrs": [self.attr(top, frozen) for _ in range(r.choice([1, 1, 2]))]}
+            self.setnames = list(asets)
         body = [self.node(top, 0, frozen, exuris)]
         if r.random() < 0.2:
             self.budget = max(self.budget, 2)
             body.append(self.node(top, 0, frozen, exuris))
-        return {"ns": ns, "excl": excl, "body": body}
+        sh = {"ns": ns, "excl": excl, "body": body}
+        if asets:
+            sh["asets"] = asets
+        return sh
+
+
+def gen_aset_shape(r):
+    """ORDER-dependent shapes: an element declares (or inherits) prefix p for URI1 without using it in its own
+    name, an attribute set used by it contains xsl:attribute name="p:z" namespace="URI2", and p is used only by
+    what comes later (literal attributes, child xsl:attribute, descendants).  Modelled (LO ... LA / M ...)."""
+    u1, u2, u3 = r.sample(UPOOL, 3)
+    p = r.choice(["p", "q", GENPFX + "0"])
+    A = lambda name, nsattr, ns=(): {"k": "attr", "name": name, "nsattr": nsattr, "ns": list(ns), "avt": r.random() < 0.3,
+                                     "val": r.randrange(4, 13)}
+    inner = {"uas": [], "attrs": [A(r.choice(["q:y", "y", p + ":y"]), r.choice([u3, u2, u1]))]}
+    sets = {"s1": {"uas": [], "attrs": [A(p + ":z", r.choice([u2, u2, u1]))] + ([A(p + ":w", u3)] if r.random() < 0.3 else [])}}
+    if r.random() < 0.4:
+        sets["s0"] = inner
+        sets["s1"]["uas"] = ["s0"]
+    if r.random() < 0.3:
+        sets["s2"] = {"uas": [], "attrs": [A("z", u2), A(p + ":z", None, [(p, r.choice([u1, u2]))])]}
+    uas = ["s1"] + (["s2"] if "s2" in sets and r.random() < 0.7 else [])
+    where = r.choice(["self", "self", "parent", "sheet"])          # where p -> URI1 is declared
+    later = [(p + ":a", r.randrange(4, 13))] + ([("b", r.randrange(4, 13))] if r.random() < 0.4 else [])
+    kids = []
+    if r.random() < 0.4:
+        kids.append(A(p + ":c", None))
+    if r.random() < 0.4:
+        kids.append({"k": "lre", "name": p + ":d", "ns": [], "attrs": [], "excl": [], "kids": []})
+    kind = r.choice(["lre", "lre", "lre", "elem"])
+    if kind == "lre":
+        e = {"k": "lre", "name": r.choice(["e", "r:e"]), "ns": [("r", u3)] + ([(p, u1)] if where == "self" else []),
+             "attrs": later, "excl": [], "uas": uas, "kids": kids}
+    else:
+        e = {"k": "elem", "name": r.choice(["e", "r:e"]), "nsattr": r.choice([None, u3]),
+             "ns": [("r", u3)] + ([(p, u1)] if where == "self" else []), "avt": False, "uas": uas,
+             "kids": [A(p + ":a", None)] + kids}
+    body = [e]
+    if where == "parent":
+        body = [{"k": "lre", "name": "o", "ns": [(p, u1)], "attrs": [], "excl": [], "kids": [e]}]
+    return {"ns": [(p, u1)] if where == "sheet" else [], "excl": [], "asets": sets, "body": body}
 
 
 def gen_oracle_only(r):
@@ -831,6 +915,16 @@ def corpus_trees():
                                                       "excl": ["#default"], "kids": []}])])),
         # (the entries above with key None are the replays of the repaired defects K3, K16, KN1-KN5, KN8:
         #  regression cases, a recurrence is a VIOLATION)
+        # order-dependent: attribute sets run between the declarations and the literal attributes
+        ("kn10_set_rebinds_prefix", "KN10",
+         dict(S([L("o", [("p", "u4")], [dict(L("e", attrs=[("p:a", 7)]), uas=["s"])])]),
+              asets={"s": [A("p:z", "u6", 2)]})),
+        ("ok_set_declared_prefix", None,          # the shape of seeded/C14_b: p is declared on the element itself
+         dict(S([dict(L("e", [("p", "u4")], attrs=[("p:a", 7)]), uas=["s"])]),
+              asets={"s": {"uas": ["t"], "attrs": [A("p:z", "u6", 2)]}, "t": [A("q:y", "u7", 1)]})),
+        ("ok_set_on_element", None,
+         dict(S([dict(M("e", None, [A("p:a", None, 4)], ns=[("p", "u4")]), uas=["s"])]),
+              asets={"s": [A("p:z", "u6", 2)]})),
         # probed and fine
         ("ok_rebind", None, S([L("p:a", [("p", "u4")], [L("p:b", [("p", "u5")], [A("q:x", "u6", 1)])])])),
         ("ok_undeclare_default", None, S([L("e", [("", "u4")], [M("f", "")])])),
@@ -979,6 +1073,8 @@ def run(ctx):
             out.append(make_case("%so%d" % (tag, i), sh, "oracle-only", want=want, modelled=False))
         for i in range(n // 5):
             out.append(gen_copy_case(ctx.rng, "%sy%d" % (tag, i)))
+        for i in range(n // 6):
+            out.append(make_case("%ss%d" % (tag, i), gen_aset_shape(ctx.rng), "gen:aset-shape"))
         return out
 
     n = 1500 if not ctx.thorough else 12000
